@@ -1,6 +1,9 @@
 package props
 
 import (
+	saml_xml "github.com/zitadel/saml/pkg/provider/xml"
+	"net/http"
+	"strconv"
 	"bytes"
 	"compress/flate"
 	"compress/gzip"
@@ -195,6 +198,39 @@ func c14Worker(c c14Case) c14Result {
 			raw += "&SAMLEncoding=" + msg.Pct(msg.EncDeflate, msg.PctStyle{})
 		}
 		mk = func() *world.Reply { return w.Do(world.RawRequest("GET", "", path, raw, "", nil)) }
+	case "api:InflateAndDecode/b64", "api:InflateAndDecode/raw", "api:DecodeResponse/b64", "api:DecodeResponse/raw", "api:DecodeSignature/b64", "api:DecodeSignature/raw", "api:DecodeAuthNRequest", "api:DecodeLogoutRequest":
+		// the exported decoders called directly (an interceptor or integrator code inspecting a message before the handlers do)
+		arg := b64
+		if strings.HasSuffix(c.Entry, "/raw") {
+			raw, _ := base64.StdEncoding.DecodeString(b64)
+			arg = string(raw)
+		}
+		mk = func() *world.Reply {
+			var err error
+			n := 0
+			switch c.Entry {
+			case "api:InflateAndDecode/b64", "api:InflateAndDecode/raw":
+				var out []byte
+				out, err = saml_xml.InflateAndDecode(msg.EncDeflate, strings.HasSuffix(c.Entry, "/b64"), arg)
+				n = len(out)
+			case "api:DecodeResponse/b64", "api:DecodeResponse/raw":
+				_, err = saml_xml.DecodeResponse(msg.EncDeflate, strings.HasSuffix(c.Entry, "/b64"), arg)
+			case "api:DecodeSignature/b64", "api:DecodeSignature/raw":
+				_, err = saml_xml.DecodeSignature(msg.EncDeflate, strings.HasSuffix(c.Entry, "/b64"), arg)
+			case "api:DecodeAuthNRequest":
+				_, err = saml_xml.DecodeAuthNRequest(msg.EncDeflate, arg)
+			case "api:DecodeLogoutRequest":
+				_, err = saml_xml.DecodeLogoutRequest(msg.EncDeflate, arg)
+			}
+			rep := &world.Reply{Status: 400}
+			if err == nil {
+				rep.Status = 200 // decoded without an error
+				if n > 0 {
+					rep.Header = http.Header{"X-Decoded-Bytes": {strconv.Itoa(n)}}
+				}
+			}
+			return rep
+		}
 	default:
 		form := url.Values{"SAMLRequest": {b64}, "RelayState": {"rs"}, "SAMLEncoding": {msg.EncDeflate}}
 		if c.Undeclared {
@@ -235,6 +271,9 @@ func c14Worker(c c14Case) c14Result {
 	res.Accepted = world.CountCalls(rep.Calls, "CreateAuthRequest") > 0
 	if logout {
 		res.Accepted = obs.Decode(rep).Success()
+	}
+	if strings.HasPrefix(c.Entry, "api:") {
+		res.Accepted = rep.Status == 200 // the decoder returned the oversized message without an error
 	}
 	return res
 }
@@ -356,6 +395,13 @@ func runC14(ctx Ctx) int {
 			for _, e := range []string{"sso-query", "sso-form", "logout-form", "logout-query"} {
 				cases = append(cases, c14Case{SizeMiB: sizes[len(sizes)-1], Placement: pl, Valid: true, Entry: e, FirstStream: fs})
 			}
+		}
+	}
+	// the exported decoders called directly with the largest payload
+	for _, e := range []string{"api:InflateAndDecode/b64", "api:InflateAndDecode/raw", "api:DecodeResponse/b64", "api:DecodeResponse/raw", "api:DecodeSignature/b64", "api:DecodeSignature/raw", "api:DecodeAuthNRequest", "api:DecodeLogoutRequest"} {
+		for _, pl := range []string{"comment", "text", "attr", "after-root"} {
+			cases = append(cases, c14Case{SizeMiB: sizes[len(sizes)-1], Placement: pl, Valid: true, Entry: e})
+			cases = append(cases, c14Case{SizeMiB: 32, Placement: pl, Valid: true, Entry: e})
 		}
 	}
 	// other spellings of the base64 text
